@@ -237,6 +237,14 @@ pub fn profile_for(prop: &str, variant: u64) -> Profile {
             p.long_chains = true;
             p.converge_end = 10;
         }
+        "C17" => {
+            p.name = "real-backends";
+            p.replicas = (1, 3);
+            p.len = (6, 24);
+            w[K::Restart as usize] = 8;
+            w[K::Reload as usize] = 4;
+            p.converge_end = 40;
+        }
         "C18" => {
             p.name = "config-matrix";
             p.len = (8, 30);
@@ -290,6 +298,7 @@ pub fn make_cfg(prop: &str, run_seed: u64) -> (RunCfg, Gen) {
         cache_data: if prof.small_caches { *rng.pick(&caps) } else { 16 },
         pool: rng.range(1, 16),
         doc,
+        backend: if prop == "C17" { crate::backends::BACKENDS[(run_seed % 12) as usize].to_string() } else { "sim".to_string() },
     };
     // swarm: scale each weight by 0, 1/2, 1 or 2
     let mut w = prof.w;
